@@ -386,4 +386,52 @@ theorem pktMarshalTo_short (p : Packet) (hwf : Pred.C01.wfP p = true) (dst : Byt
     (hl : dst.length < pktMarshalSize p) : pktMarshalTo p dst = .err .shortBuffer :=
   pktMarshalTo_short_ser p (ser_of_wf _ ((wfP_iff p).1 hwf).1) ((wfP_iff p).1 hwf).2 dst hl
 
+/-! ### without the padding flag (outside C01's domain when the size is not 0) -/
+
+/-- no padding flag: header and payload are written, nothing else — whatever `PaddingSize` says -/
+theorem pktMarshalTo_noflag (p : Packet) (hs' : Ser p.header) (hpad : p.header.padding = false) (dst : Bytes)
+    (hl : pktMarshalSize p ≤ dst.length) :
+    pktMarshalTo p dst = .ok (hdrWire p.header ++ (p.payload ++
+      dst.drop (hdrMarshalSize p.header + p.payload.length)), pktMarshalSize p) := by
+  have hW := hdrWire_length_ser _ hs'
+  have hs : pktMarshalSize p = hdrMarshalSize p.header + p.payload.length + p.paddingSize.toNat := rfl
+  unfold pktMarshalTo
+  simp only [hpad, Bool.false_and, Bool.false_eq_true, if_false]
+  rw [hdrMarshalTo_ser _ hs' dst (by omega)]
+  simp only
+  rw [if_neg (by omega)]
+  obtain ⟨x0, r0, rfl, hx0⟩ := split_at dst (hdrMarshalSize p.header) (by omega)
+  obtain ⟨x1, r1, rfl, hx1⟩ := split_at r0 p.payload.length (by simp only [List.length_append] at hl; omega)
+  rw [drop_left' _ _ _ hx0.symm]
+  have hdrop : (x0 ++ (x1 ++ r1)).drop (hdrMarshalSize p.header + p.payload.length) = r1 := by
+    rw [show x0 ++ (x1 ++ r1) = (x0 ++ x1) ++ r1 by simp only [List.append_assoc]]
+    exact drop_left' _ _ _ (by simp only [List.length_append]; omega)
+  rw [hdrop]
+  rw [show hdrMarshalSize p.header = (hdrWire p.header).length + 0 by omega, writeAt_right,
+    writeAt_head x1 _ _ (by omega)]
+  simp [hs, hW]
+
+theorem rep_drop (n k : Nat) (b : UInt8) : (rep n b).drop k = rep (n - k) b := by
+  simp [rep]
+
+theorem pktMarshal_noflag (p : Packet) (hs' : Ser p.header) (hpad : p.header.padding = false) :
+    pktMarshal p = .ok (hdrWire p.header ++ (p.payload ++ rep p.paddingSize.toNat 0)) := by
+  have hW := hdrWire_length_ser _ hs'
+  have hsz : pktMarshalSize p = hdrMarshalSize p.header + p.payload.length + p.paddingSize.toNat := rfl
+  unfold pktMarshal
+  rw [pktMarshalTo_noflag p hs' hpad _ (by simp [rep])]
+  simp only [Res.ok.injEq, rep_drop]
+  rw [show pktMarshalSize p - (hdrMarshalSize p.header + p.payload.length) = p.paddingSize.toNat by omega]
+  apply List.take_of_length_le
+  simp [rep]; omega
+
+/-- …so a destination full of 0xFF comes back different from Marshal when the size is not 0 -/
+theorem pktMarshalTo_noflag_dirty (p : Packet) (hs' : Ser p.header) (hpad : p.header.padding = false) :
+    pktMarshalTo p (rep (pktMarshalSize p) 0xFF) =
+      .ok (hdrWire p.header ++ (p.payload ++ rep p.paddingSize.toNat 0xFF), pktMarshalSize p) := by
+  have hsz : pktMarshalSize p = hdrMarshalSize p.header + p.payload.length + p.paddingSize.toNat := rfl
+  rw [pktMarshalTo_noflag p hs' hpad _ (by simp [rep]), rep_drop,
+    show pktMarshalSize p - (hdrMarshalSize p.header + p.payload.length) = p.paddingSize.toNat by omega]
+
+
 end Rtp.Proofs.PacketRt
